@@ -123,7 +123,7 @@ def plan_mutator(plan, msg_proc):
                     continue
                 else:
                     return ret_value
-            except Exception as e:
+            except BaseException as e:
                 # if we catch an exception,
                 # the current top plan is dead so pop it
                 plan_stack.pop()
@@ -168,7 +168,7 @@ def plan_mutator(plan, msg_proc):
                     continue
                 else:
                     return ret_value
-            except Exception as ex:
+            except BaseException as ex:
                 # we are here because an exception came out of the send
                 # this may be due to
                 # a) the plan really raising or
@@ -217,7 +217,9 @@ def plan_mutator(plan, msg_proc):
             for p in plan_stack:
                 p.close()
             raise
-        except Exception as ex:
+        except BaseException as ex:
+            # (also KeyboardInterrupt, asyncio.CancelledError, ...: the wrapped
+            # plan must see whatever is thrown in, as with msg_mutator)
             if plan_stack:
                 exception = ex
                 continue
